@@ -92,6 +92,9 @@ def _op(path, spec):
                 if kind == "pack":
                     r.refs.pack_refs(all=True)
                     return True
+                if kind == "sym":
+                    r.refs.set_symbolic_ref(R, b"refs/heads/other")
+                    return True
                 if kind == "commit":
                     from dulwich.errors import CommitError
                     kw = dict(message=b"commit-%d" % spec[1], committer=b"a <a@x>", author=b"a <a@x>", commit_timestamp=1700000100 + spec[1],
@@ -174,13 +177,17 @@ def explore(req):
                             final = _label(rr.object_store[rr.refs[R]])
                         except KeyError:
                             final = None
+                        try:
+                            other = _n(rr.refs[b"refs/heads/other"])
+                        except KeyError:
+                            other = None
                         loose = rr.refs.read_loose_ref(R)
                         packed = rr.refs.get_packed_refs().get(R)
                         locks = [os.path.join(dp, n) for dp, dn, fn in os.walk(path) for n in fn if n.endswith(".lock")]
                     finally:
                         rr.close()
                     return {"anc": anc, "final": final, "loose": _n(loose) if loose and not loose.startswith(b"ref:") else (loose.decode() if loose else None),
-                            "packed": _n(packed), "locks": [os.path.relpath(x, path) for x in locks], "marks": dict(marks)}
+                            "packed": _n(packed), "other": other, "locks": [os.path.relpath(x, path) for x in locks], "marks": dict(marks)}
                 finally:
                     shutil.rmtree(d, ignore_errors=True)
             return s, actors, finish
@@ -190,7 +197,7 @@ def explore(req):
             for i, x in enumerate(r["results"]):
                 inv, resp = fin["marks"].get(i, [0, None])
                 ops.append({"inv": inv, "resp": resp if resp is not None else 10 ** 9, "res": x[1] if x and x[0] == "ok" else "exc:" + str(x[1] if x else None)})
-            out.append({"sched": ".".join(str(c[1]) for c in r["choices"]), "ops": ops, "final": fin["final"], "loose": fin["loose"], "packed": fin["packed"], "anc": fin["anc"],
+            out.append({"sched": ".".join(str(c[1]) for c in r["choices"]), "ops": ops, "final": fin["final"], "other": fin["other"], "loose": fin["loose"], "packed": fin["packed"], "anc": fin["anc"],
                         "locks": fin["locks"], "trace": ["%d:%s:%s:%s" % (a, c.replace("os.", ""), "/".join(map(str, ar[:1])), o) for (a, c, ar, o) in r["trace"]]})
     finally:
         shutil.rmtree(d0, ignore_errors=True)
